@@ -5,7 +5,8 @@ def setup(register, COMMON_TB):
     register(
         "C02", coq="C02", coq_extra=["k8s", "ngx"], pkg="./internal/mode/static/", test="TestVerifC02",
         extra=[dict(pkg="./internal/mode/static/state/graph/", test="TestVerifC02Hosts"),
-               dict(pkg="./internal/mode/static/", test="TestVerifNjs")],
+               dict(pkg="./internal/mode/static/", test="TestVerifNjs"),
+               dict(pkg="./internal/mode/static/nginx/config/", test="TestVerifC02Rewrite")],
         rule="generated cluster states (gateway classes own/foreign, 1-2 gateways, HTTP/HTTPS listeners with hostnames, allowedRoutes, "
              "certificate refs, HTTPRoutes/GRPCRoutes with matches, filters, weighted backends, services, secrets, grants, namespaces), each "
              "run through the real handler/graph/configuration/generator; 40 (quick) or 100 (thorough) requests per state over the mentioned "
@@ -13,7 +14,7 @@ def setup(register, COMMON_TB):
              "distinct = distinct cluster states"
              " Second part (TestVerifC02Hosts, evaluated by k8s/HostCheck.v): the real findAcceptedHostnames on every pair of a pool of 15 hostnames (exact names, "
              "wildcards of several depths, look-alikes) and on random lists: equal to Spec.accepted_hostnames, and on 15 probe hosts some returned name serves the host "
-             "exactly when the listener hostname and a route hostname admit it. Third part (TestVerifNjs, evaluated by ngx/NjsCheck.v): the REAL nginx/modules/src/httpmatches.js of the tree under test, unmodified, under node 20 with a mocked request object, on 3000 (quick) / 60000 (thorough) generated match tables and requests (well-formed and malformed matches, absent/unknown/empty keys, header names in other case, comma lists, repeated query keys): returned status or redirect path equal to the model njs_redirect of ngx/Eval.v that every routing oracle uses",
+             "exactly when the listener hostname and a route hostname admit it. Third part (TestVerifNjs, evaluated by ngx/NjsCheck.v): the REAL nginx/modules/src/httpmatches.js of the tree under test, unmodified, under node 20 with a mocked request object, on 3000 (quick) / 60000 (thorough) generated match tables and requests (well-formed and malformed matches, absent/unknown/empty keys, header names in other case, comma lists, repeated query keys): returned status or redirect path equal to the model njs_redirect of ngx/Eval.v that every routing oracle uses. Fourth part (TestVerifC02Rewrite, evaluated by C02/RewriteCheck.v): the real createMainRewriteForFilters (ReplacePrefixMatch) on 15 prefixes x 8 replacements; the directive text must equal the model's, the regular expression it wrote is compiled by Go's regexp and applied as NGINX's rewrite would to 11 request paths each (the prefix, with slash, with further elements, look-alikes, unrelated): result = the model's apply, and every path that reaches the rule is rewritten to what Gateway API prescribes",
         trusted_base=COMMON_TB + [
             "ngx/Lexer.v + ngx/Eval.v: NGINX tokenizer, server_name/location selection, rewrite-phase and split_clients semantics written from the NGINX documentation (no NGINX binary in the sandbox)",
             "Njs part of ngx/Eval.v: transcription of httpmatches.js, compared with the real module under node 20 on every run (third part); the mock of the njs request object (harness/njs/run.mjs: headersIn case-insensitive with one value per name, args with arrays for repeated keys, querystring of node in place of njs's) is trusted",
